@@ -136,11 +136,7 @@ Proof.
   - destruct (mlookup n m); auto.
   - destruct (mlookup n m) eqn:E.
     + split; [reflexivity|]. split; [apply dremove_enc; assumption|apply mremove_bytes; assumption].
-    + split; [reflexivity|]. split; [|apply mremove_bytes; assumption].
-      assert (Hid : mremove n m = m).
-      { clear -E. induction m as [|[n' k'] m IH]; [reflexivity|]. cbn [mlookup mremove] in *.
-        destruct (bytes_eqb n n'); [discriminate|]. f_equal. apply IH. exact E. }
-      rewrite Hid. reflexivity.
+    + split; [reflexivity|]. split; [reflexivity|assumption].
   - split; [|auto]. f_equal. apply dnames_enc. assumption.
 Qed.
 
